@@ -2485,6 +2485,7 @@ impl<'a> Socket<'a> {
             net_debug!("timeout exceeded");
             self.set_state(State::Closed);
         } else if self.timer.should_retransmit(cx.now()) {
+            let is_fast_retransmit = !matches!(self.timer, Timer::Retransmit { .. });
             if let Timer::Retransmit { .. } = self.timer {
                 // If a retransmit timer expired, we should resend data starting at the last ACK.
                 net_debug!("retransmitting after rto");
@@ -2526,6 +2527,12 @@ impl<'a> Socket<'a> {
             if self.remote_win_len == 0 && !self.tx_buffer.is_empty() {
                 let delay = self.rtte.retransmission_timeout();
                 self.timer.set_for_zero_window_probe(cx.now(), delay);
+            } else if is_fast_retransmit {
+                // A fast retransmit is not guaranteed to put anything on the wire (only a
+                // FIN may be outstanding), so the retransmission timer has to keep running
+                // for whatever is still unacknowledged.
+                let rto = self.rtte.retransmission_timeout();
+                self.timer.set_for_retransmit(cx.now(), rto);
             }
 
             // Inform RTTE, so that it can avoid bogus measurements.
